@@ -399,6 +399,28 @@ func (w *nodeWorld) viewsAgree(v views) {
 		if n != si.Total {
 			w.violate("", fmt.Sprintf("stream %d: total=%d but %d patterns recorded", id, si.Total, n))
 		}
+		// the invariant proved in Lean (NodeSt.Agree) also says that no empty record is kept
+		emptySig := ""
+		if w.zeroAccept {
+			emptySig = "F-pubsub-empty-sub"
+		}
+		if n == 0 {
+			w.violate(emptySig, fmt.Sprintf("stream %d keeps a record without any pattern", id))
+		}
+		for space, pats := range si.BySpace {
+			if len(pats) == 0 {
+				w.violate(emptySig, fmt.Sprintf("stream %d keeps an empty pattern set for space %s", id, space))
+			}
+		}
+	}
+	for space, si := range v.snap.Remote {
+		if si.Len == 0 {
+			sig := ""
+			if w.zeroAccept {
+				sig = "F-pubsub-empty-sub"
+			}
+			w.violate(sig, fmt.Sprintf("space %s keeps an empty trie", space))
+		}
 	}
 	fromTags := map[key]bool{}
 	for tag, ids := range v.tags {
